@@ -1369,6 +1369,12 @@ class CryptographyEngine(api.CryptographicEngine):
                 ' algorithm and a cryptographic algorithm must be specified.'
             )
 
+        if hash_alg is None:
+            raise exceptions.InvalidField(
+                'For signing, a supported hashing algorithm (or a digital '
+                'signature algorithm implying one) must be specified.'
+            )
+
         if crypto_alg == enums.CryptographicAlgorithm.RSA:
             try:
                 key = self._create_RSA_private_key(signing_key)
